@@ -63,13 +63,14 @@ type Exec struct {
 	// Deep > 0: calls are issued on a fresh goroutine below Deep filler frames (+ Fine*16 bytes)
 	Deep, Fine int
 	// Faults: mprotect errno injection is enabled for this history (C02 fault configuration)
-	Faults   bool
-	builders []*mocker.Builder
-	st       map[int]*tstate
-	phUsed   map[int]bool
-	keep     []interface{}                    // callbacks kept alive by the harness (dropped by dropref)
-	handles  map[[2]int]mocker.ExportedMocker // mocker handle returned by the last fresh-lookup apply per (builder, target)
-	opi      int
+	Faults       bool
+	builders     []*mocker.Builder
+	st           map[int]*tstate
+	phUsed       map[int]bool
+	keep         []interface{}                    // callbacks kept alive by the harness (dropped by dropref)
+	ifaceBuilder *mocker.Builder                  // builder used by the rejected interface configurations (bad kinds 12-14)
+	handles      map[[2]int]mocker.ExportedMocker // mocker handle returned by the last fresh-lookup apply per (builder, target)
+	opi          int
 }
 
 func (x *Exec) state(t int) *tstate {
@@ -849,6 +850,24 @@ func (x *Exec) bad(op world.Op) {
 			}
 		}
 		f = func() { t.Lookup(b, x.how(op.T)).Returns(seq...) }
+	case 14:
+		desc = "Interface(&v).Method(unknown name)"
+		it := ifc.Ifaces[int(op.V%uint64(len(ifc.Ifaces)))]
+		vi := int(op.V>>8) % len(it.Vars)
+		before := *(*[2]uintptr)(unsafe.Pointer(reflect.ValueOf(it.Vars[vi]).Pointer()))
+		if x.ifaceBuilder == nil {
+			x.ifaceBuilder = mocker.Create()
+		}
+		ib := x.ifaceBuilder
+		cb := it.Methods[0].Mk(&ifc.Rec{})
+		// the same bogus name every time: the second attempt meets whatever the first one cached
+		f = func() { ib.Interface(it.Vars[vi]).Method("Gamma").Apply(cb) }
+		defer func() {
+			after := *(*[2]uintptr)(unsafe.Pointer(reflect.ValueOf(it.Vars[vi]).Pointer()))
+			if after != before {
+				x.fail("reject/iface-var-changed", "%s on %s was rejected but the variable changed: %x -> %x", desc, it.Name, before, after)
+			}
+		}()
 	case 12, 13:
 		// interface mocks: a callback that does not fit (the one place with a real cause chain)
 		it := ifc.Ifaces[r.Intn(len(ifc.Ifaces))]
@@ -881,7 +900,12 @@ func (x *Exec) bad(op world.Op) {
 				return res
 			}).Interface()
 		}
-		ib := mocker.Create() // its own builder: the variable must stay untouched, nothing to reset
+		// one builder for all rejected interface configurations of this history: a rejected attempt
+		// must not leave anything behind that makes the next identical attempt succeed
+		if x.ifaceBuilder == nil {
+			x.ifaceBuilder = mocker.Create()
+		}
+		ib := x.ifaceBuilder
 		f = func() { ib.Interface(it.Vars[vi]).Method(m.Name).Apply(cb) }
 		defer func() {
 			after := *(*[2]uintptr)(unsafe.Pointer(reflect.ValueOf(it.Vars[vi]).Pointer()))
@@ -1065,6 +1089,10 @@ func (x *Exec) final() {
 		if b != nil {
 			resetAll(b)
 		}
+	}
+	if x.ifaceBuilder != nil {
+		catchCall(func() { x.ifaceBuilder.Reset() })
+		ifc.ResetVars()
 	}
 	for _, s := range x.st {
 		*s = tstate{kind: kOrig, owner: -1}
